@@ -217,6 +217,23 @@ Proof.
   - apply exec_call_never_panics.
 Qed.
 
+(* the same when the tree is changed WHILE the started command runs: the call
+   is still one check and at most one start, both in the state before the change *)
+Lemma every_call_during s0 ops k api p d :
+  nth_error ops k = Some (OpExecDuring api p d) ->
+  let s := state_at s0 ops k in
+  nth_error (run s0 ops) k = Some (EvCall (exec_call s p))
+  /\ (forall f u g m, exec_call s p = Ran f u g m ->
+        eval_symlinks s p = RFile f u g m /\ root_controlled u g m)
+  /\ (~ allowed_path s p -> exists e, exec_call s p = Refused e)
+  /\ exec_call s p <> Panicked.
+Proof.
+  intros H s. split; [apply (run_nth s0 ops k _ H)|]. split; [|split].
+  - intros f u g m R. apply exec_call_ran in R. tauto.
+  - apply exec_call_refused.
+  - apply exec_call_never_panics.
+Qed.
+
 (* ---- the configuration file ---- *)
 Lemma config_file_rule c s path :
   has_cmd c = true -> validate c s path = VOk -> allowed_path s path.
